@@ -58,11 +58,13 @@ def make_family(shape, kinds=inject.FAULT_KINDS, budget=1):
         bad = zbool(Not(Or(exact_once, clean)))
         differs = 'none'
         if not z3.is_false(z3.simplify(bad)) and ctx.check(bad) != 'unsat':
-            # name the relations that differ from the fault-free result
-            # (part of the fingerprint of the finding)
+            # name the relations that differ from the state the answer
+            # promises: the fault-free result for a success, the state
+            # before the request for an error (fingerprint of the finding)
+            ref = post if r.status < 400 else pre
             differs = '+'.join(
                 t for t in CORE_TABLES
-                if ctx.check(bad, zbool(rel_diff(fin, post, (t,)))) == 'sat'
+                if ctx.check(bad, zbool(rel_diff(fin, ref, (t,)))) == 'sat'
             ) or 'none'
         obligation(ctx, 'exactly-once-or-clean-failure', bad,
                    'fault %s: answered %d (fault-free: %d) and the stored '
